@@ -25,15 +25,16 @@ type flipPlan struct {
 	On  bool   `json:"on"`
 	Dir string `json:"dir"` // "ab" | "ba"
 	Off int64  `json:"off"`
+	Cut bool   `json:"cut,omitempty"` // instead of flipping a bit the stream ends at the offset
 }
 
 func (f flipPlan) plans(abFrames, baFrames int) (ab, ba dirPlan) {
 	ab, ba = dirPlan{frames: abFrames}, dirPlan{frames: baFrames}
 	if f.On && f.Dir == "ab" {
-		ab.flip, ab.rawFlip = true, f.Off
+		ab.flip, ab.cut, ab.rawFlip = !f.Cut, f.Cut, f.Off
 	}
 	if f.On && f.Dir == "ba" {
-		ba.flip, ba.rawFlip = true, f.Off
+		ba.flip, ba.cut, ba.rawFlip = !f.Cut, f.Cut, f.Off
 	}
 	return
 }
